@@ -129,3 +129,7 @@ Proof.
  - rewrite rev_app_distr. cbn. exact Ht. Qed.
 Lemma trim_idem s : trim (trim s) = trim s.
 Proof. apply trim_id, trim_noparen_ends. Qed.
+Lemma bytes_eqb_sym' a b : bytes_eqb a b = bytes_eqb b a.
+Proof. destruct (bytes_eqb a b) eqn:E.
+ - apply bytes_eqb_eq in E; subst; symmetry; apply bytes_eqb_refl.
+ - symmetry; apply bytes_eqb_neq; apply bytes_eqb_neq in E; congruence. Qed.
